@@ -145,7 +145,16 @@ def eval_case(ctx, case):
     via = case.get("via", "global")
     kw = {"myst_footnote_sort": sort, "myst_footnote_transition": trans}
     exts = ["attrs_inline", "attrs_block", "deflist", "strikethrough", "substitution", "dollarmath", "colon_fence", "tasklist", "fieldlist", "smartquotes", "replacements"] if case.get("exts") else []
-    if via != "global":
+    if via == "front-sort-only":
+        # only ONE of the two options is overridden in the front matter; the other keeps its project-wide value
+        text = f"---\nmyst:\n  footnote_sort: {'true' if sort else 'false'}\n---\n\n" + text
+        kw = {"myst_footnote_sort": not sort, "myst_footnote_transition": trans}
+        detail["text"] = text
+    elif via == "front-transition-only":
+        text = f"---\nmyst:\n  footnote_transition: {'true' if trans else 'false'}\n---\n\n" + text
+        kw = {"myst_footnote_sort": sort, "myst_footnote_transition": not trans}
+        detail["text"] = text
+    elif via != "global":
         # the same effective settings, supplied in the document's front matter (optionally over contradicting global values)
         text = f"---\nmyst:\n  footnote_sort: {'true' if sort else 'false'}\n  footnote_transition: {'true' if trans else 'false'}\n---\n\n" + text
         kw = {"myst_footnote_sort": not sort, "myst_footnote_transition": not trans} if via == "front-over-opposite-global" else {}
@@ -304,7 +313,7 @@ def make_case(R):
         items.insert(R.randint(0, len(items)), ["heading"])
     for _ in range(R.choice([0, 1])):
         items.insert(R.randint(0, len(items)), ["text"])
-    return {"kind": "arr", "items": items, "sort": R.random() < 0.6, "transition": R.random() < 0.6, "via": R.choice(["global", "global", "front-only", "front-over-opposite-global"]), "exts": R.random() < 0.3}
+    return {"kind": "arr", "items": items, "sort": R.random() < 0.6, "transition": R.random() < 0.6, "via": R.choice(["global", "global", "front-only", "front-over-opposite-global", "front-sort-only", "front-transition-only"]), "exts": R.random() < 0.3}
 
 
 def run_shard(ctx):
